@@ -63,13 +63,20 @@ type World struct {
 type lockedBuf struct {
 	mu sync.Mutex
 	b  bytes.Buffer
+	// after: called after each write, with no lock held (a scheduling point
+	// where writing a log line is one: a system call in a real process)
+	after func()
 }
 
 func (l *lockedBuf) Write(p []byte) (int, error) {
 	l.mu.Lock()
-	defer l.mu.Unlock()
 	if l.b.Len() < 4<<20 {
 		l.b.Write(p)
+	}
+	after := l.after
+	l.mu.Unlock()
+	if after != nil {
+		after()
 	}
 	return len(p), nil
 }
@@ -93,6 +100,8 @@ type Options struct {
 	Cooperative bool
 	// MaxSteps bounds scheduler decisions.
 	MaxSteps int
+	// YieldOnLog: writing a log line is a scheduling point (cooperative runs).
+	YieldOnLog bool
 }
 
 // Run executes body inside a fresh bubble as task "main".  It returns after
@@ -104,6 +113,9 @@ func Run(r *core.Run, opt Options, body func(w *World)) (w *World) {
 	w = &World{R: r, T: r.T, Root: root, ticks: map[string]int{}, tickAt: map[string]time.Time{}, Spinning: map[string]time.Time{},
 		Tokens: map[string]*SimToken{}, Keys: map[string]*KeyMaterial{}, KeyHistory: map[string][]*KeyMaterial{}}
 	oldLogger := log.Logger
+	if opt.Cooperative && opt.YieldOnLog {
+		w.LogBuf.after = func() { w.Yield("log") }
+	}
 	log.Logger = zerolog.New(&w.LogBuf)
 	defer func() { log.Logger = oldLogger }()
 	stdlog.SetOutput(&w.LogBuf) // a few relic packages use the standard logger
